@@ -2044,13 +2044,12 @@ impl Machine {
                 &mut self.machine_st.arena,
             );
 
+            // the size argument may be a variable that is already bound
+            let size = self.deref_register(2);
+
             match len {
-                Number::Fixnum(n) => self
-                    .machine_st
-                    .unify_fixnum(n, self.machine_st.registers[2]),
-                Number::Integer(n) => self
-                    .machine_st
-                    .unify_big_int(n, self.machine_st.registers[2]),
+                Number::Fixnum(n) => self.machine_st.unify_fixnum(n, size),
+                Number::Integer(n) => self.machine_st.unify_big_int(n, size),
                 _ => unreachable!(),
             }
         } else {
